@@ -3,6 +3,7 @@ import hashlib
 import json
 
 from . import lean_audit
+from . import plug
 
 RULE = {
     "C18": "cases = (a) random parameter lists over shell metacharacters, quotes, whitespace, empty strings and non-ASCII, quoted by the "
@@ -23,8 +24,7 @@ def run_pool(job):
     res = {"evaluations": 0, "transitions": 0, "context_switches": 0, "traces_validated": 0, "shapes": {},
            "distinct": [], "corr_fail": [], "mon_fail": [], "known": [], "samples": [], "extra": {}}
     rp = {"model": "m9-pool", "job": {"seed": job["seed"], "n": job["n"]}}
-    p = subprocess.run(["timeout", "-s", "KILL", "300", "/venv/bin/python", "-m", "harness.m9_pool", str(job["seed"]), str(job["n"])],
-                       cwd=ds.REPO, env=env, stdout=subprocess.PIPE, stderr=subprocess.DEVNULL)
+    p = plug.run_group(["/venv/bin/python", "-m", "harness.m9_pool", str(job["seed"]), str(job["n"])], ds.REPO, env, 300)
     line = [l for l in p.stdout.decode("utf8", "replace").splitlines() if l.startswith("M9POOL ")]
     if not line:
         return {"infra_error": "concurrent pool exploration (seed %d) produced no result" % job["seed"]}
